@@ -22,6 +22,21 @@ CHECKS = {
    text="As C05 for sorted sets: TLC enumerates every sorted set of <= 2 (thorough 3) members over keys {'', 'a', 'b'} and scores {-1,0,1} (ties) and every call of ZAdd/ZRem/ZRemRangeByRank/ZPopMax/ZPopMin and of every query (ZRangeByScore with every bound in -2..2, both orders, both exclusion flags, limits; ZRangeByRank/ZRank/ZRevRank with every rank in -n-2..n+2; ZScore/ZGetByKey/ZCount/ZCard/ZMembers/ZPeekMin/ZPeekMax); every transition is replayed under several skip-list level layouts (math/rand seeded per repetition) through transactions and on ds/zset.SortedSet; recordings and long random histories are validated by TLC against ZSetSpec.tla (order by (score,key); every returned node must be a member with its score and value).",
    note="Trusts TLC and the recording wrapper. Scores are small integers; NaN/Inf are outside the statement and only covered by C20.",
    technique="TLC-enumerated transitions replayed into the code + TLA+ trace validation of the recordings"),
+ "C08": dict(
+   cat="model_checking", design="DESIGN.md section 6 C08",
+   text="Trace validation of mixed histories over KV, lists, sets and sorted sets (multi-operation transactions, operations that are no-ops at commit, rollbacks, rotations with 192-576 byte segments) with a real Close/Open every few transactions and shadow reopens (copy of the directory opened separately) in between; after each, a full observation of every bucket and structure is recorded and TLC accepts it only if it equals Replay(log) of Nuts.tla, which by the invariant ReopenInv equals what the process served before Close. KV-only histories run in both RAM index modes. ReopenInv is model-checked on NutsMC (kv/list/set/zset universes), and the recorded deviations (SMove unlogged, duplicate tx ids) are shown to be counterexamples of it.",
+   note="Trusts TLC and the recording wrapper. Sparse mode reopen is judged under C02. Known findings of C06/C07/C13 that also surface here are reported as KNOWN-FINDING lines.",
+   technique="TLA+ trace validation with TLC (code -> spec, invariant ReopenInv) + bounded model checking of NutsMC"),
+ "C12": dict(
+   cat="model_checking", design="DESIGN.md section 6 C12",
+   text="Trace validation of histories in which ~45% of the write transactions end without a successful commit: Rollback, an oversized entry at a random position, an injected write error (with or without a partial write) or sync error at a random file mutation of the commit (verifFS hook), and read-only transactions that call mutating APIs; every method is also called on finished transactions. After each such transaction reads, full observations and shadow reopens are recorded, and TLC accepts them only if they equal the unchanged model state (actions Rollback/CommitFail/MutateRO/Finished of Nuts.tla; a failure after the last record was completely written is admitted as all-or-nothing). The action property NoEffect is model-checked on NutsMC and the SMove deviation is shown to violate it.",
+   note="Trusts TLC, the recording wrapper and the fault injector (harness/internal/hx/fsobs.go, which checks at the end of each history that its image of the directory equals the real one).",
+   technique="TLA+ trace validation with TLC (code -> spec) with fault injection through build-tag hooks + bounded model checking of NutsMC"),
+ "C13": dict(
+   cat="model_checking", design="DESIGN.md section 6 C13",
+   text="Specification -> code: every pair (mutating call, any call) over the DsGen states of lists, sets and sorted sets is executed as one two-operation write transaction (sampled in the quick tier, all pairs in the thorough tier), plus random multi-operation transactions with reads and pops between the operations; TLC validates each recorded result against the transaction's own view (start state + its earlier operations, Nuts.tla tx.view) and the committed state against that view. SerialView/SerialResults are model-checked on NutsMC. The pinned tree evaluates reads inside a write transaction on the committed state only; that behaviour is the named deviation F-C13-1 and is reported as KNOWN-FINDING, anything else is a VIOLATION.",
+   note="Trusts TLC and the recording wrapper. Because F-C13-1 is a recorded deviation, a new defect whose results coincide with 'evaluated on the committed state' is not distinguished from it.",
+   technique="TLC-enumerated two-operation transactions replayed into the code + TLA+ trace validation"),
  "C01": dict(
    cat="model_checking", design="DESIGN.md section 6 C01",
    text="Trace validation: seeded random KV histories (multi-bucket, TTL on both sides of expiry, segments of 128-512 bytes so nearly every transaction rotates, reopen) are executed on the real library in HintKeyValAndRAMIdxMode and HintKeyAndRAMIdxMode x FileIO and MMap, every call is recorded, and TLC accepts the trace only if every Get/GetAll/RangeScan/PrefixScan/PrefixSearchScan result equals the KVSpec ordered-map-with-TTL result on the specification state (Nuts.tla). The API-grain design is model-checked exhaustively for a small universe (NutsMC_kv.cfg).",
